@@ -58,6 +58,21 @@ def level_cases(tier):
                                 if fn == 'make':
                                     kw['micro'] = False
                             cases.append({'fn': fn, 'content': enc_content(pure_content(mode, n)), 'kw': kw, 'enum': True})
+    # eci=True with byte content: whether a header is written is read from the symbol
+    for v in (1, 2, 3, 5, 9, 10):
+        for lvl in R.levels_of(v):
+            mx = gens.max_len(v, lvl, 'byte')
+            for n in (mx, mx - 1, mx - 2):
+                if n < 1:
+                    continue
+                for enc in ('ISO-8859-1', 'latin1', 'iso-8859-1', 'utf-8', 'Iso-8859-1', 'cp1252', None):
+                    for req in (None, 'L', lvl):
+                        kw = {'mask': 0, 'eci': True}
+                        if enc:
+                            kw['encoding'] = enc
+                        if req:
+                            kw['error'] = req
+                        cases.append({'fn': 'make_qr' if n % 2 else 'make', 'content': enc_content(pure_content('byte', n)), 'kw': kw, 'enum': True})
     return cases
 
 
